@@ -241,4 +241,75 @@ theorem backend_total_after_preload (S : Scripts) (w0 : W) (e : Bool) (files : L
 example : preloaded (preloadObjects false [("p1", true), ("p2", false), ("p3", true)] {}).trace.reverse = ["p1", "p2", "p3"] := by
   rw [preload_visits_every_file _ _ rfl rfl]; rfl
 
+/-! ## the other proved clauses, for runs that begin with a preload phase -/
+
+theorem preloadFiles_step : ∀ (fs : List (String × Bool)) (w : W), Step w (preloadFiles fs w) := by
+  intro fs
+  induction fs with
+  | nil => intro w; exact Step.refl w
+  | cons x fs ih =>
+    intro w
+    obtain ⟨name, raises⟩ := x
+    unfold preloadFiles
+    split
+    · exact Step.trans (emit_same w (.tPreload name)).step (Step.trans (raise_step _ name) (ih _))
+    · exact Step.trans (emit_same w (.tPreload name)).step (ih _)
+
+/-- preload_objects() keeps the invariant and logs one well-formed block (every `x err` directly followed by its
+    report, no crash event, no cycle marker) -/
+theorem preloadObjects_step (e : Bool) (files : List (String × Bool)) (w : W) : Step w (preloadObjects e files w) := by
+  unfold preloadObjects
+  split
+  · exact Step.bracket (Step.trans (emit_same (pushCtx w) .tEpilog).step (raise_step _ "epilog"))
+  · exact Step.trans (Step.bracket (emit_same (pushCtx w) .tEpilog).step) (Step.bracket (preloadFiles_step files _))
+
+theorem preload_block (e : Bool) (files : List (String × Bool)) (w : W) (f : Fresh w) (ht : w.trace = []) :
+    BlockOK (preloadObjects e files w).trace := by
+  obtain ⟨es, he, hb⟩ := (preloadObjects_step e files w f.inv).2.tr
+  rw [he, ht, List.append_nil]; exact hb
+
+/-- **clause `crash`**, preload phase included -/
+theorem judge_crash_clause_preload (S : Scripts) (w : W) (e : Bool) (files : List (String × Bool))
+    (h : List (List Action)) (f : Fresh w) (ht : w.trace = []) :
+    clauseCrash (events S (preloadObjects e files w) h) = [] := by
+  obtain ⟨es, he, hb⟩ := runFull_trext S (preloadObjects e files w) h (preload_keeps_fresh e files w f)
+  have hall := BlockC.append (preload_block e files w f ht).toC hb
+  have : (events S (preloadObjects e files w) h).filter isCrash = [] := by
+    unfold events
+    rw [he, List.filter_eq_nil_iff]
+    intro x hm
+    have := hall.noCrash x (List.mem_reverse.mp hm)
+    simp [this]
+  unfold clauseCrash
+  rw [this]; rfl
+
+/-- **clause `report`**, preload phase included: an error while a file is preloaded (or in epilog()) is reported to
+    the master like every other uncaught error -/
+theorem judge_report_clause_preload (S : Scripts) (w : W) (e : Bool) (files : List (String × Bool))
+    (h : List (List Action)) (f : Fresh w) (ht : w.trace = []) :
+    clauseReport (events S (preloadObjects e files w) h) = [] := by
+  obtain ⟨es, he, hb⟩ := runFull_trext S (preloadObjects e files w) h (preload_keeps_fresh e files w f)
+  have hall := BlockC.append (preload_block e files w f ht).toC hb
+  have : reportOk (events S (preloadObjects e files w) h) = true := by
+    unfold events
+    rw [he]; exact hall.report
+  unfold clauseReport
+  simp [this]
+
+/-- **clause `liveness` (cycle markers)**, preload phase included -/
+theorem judge_cycles_clause_preload (S : Scripts) (w : W) (e : Bool) (files : List (String × Bool))
+    (h : List (List Action)) (f : Fresh w) (ht : w.trace = []) :
+    clauseCycles (events S (preloadObjects e files w) h) = [] := by
+  obtain ⟨es, m, he, _, hk⟩ := runFull_block S (preloadObjects e files w) h (preload_keeps_fresh e files w f)
+  have hpre := markers_noCycle _ (preload_block e files w f ht).noCycle
+  have : cyclesOk 1 (events S (preloadObjects e files w) h) = true := by
+    unfold events
+    apply cyclesOk_of_markers _ 1 m
+    have hm : markers (es ++ (preloadObjects e files w).trace) = List.range' 1 m := by
+      rw [markers_append, hpre, hk]; rfl
+    rw [he]
+    exact hm
+  unfold clauseCycles
+  simp [this]
+
 end NV.C09
